@@ -141,7 +141,9 @@ class SyncedDict(SyncedCollection, MutableMapping):
                             self._validate({key: new_value})
                         self._data[key] = self._from_base(new_value, parent=self)
                     else:
-                        if new_value == existing:
+                        # Values such as 1, 1.0 and True compare equal but are
+                        # different JSON values, so equality alone is not enough.
+                        if type(new_value) is type(existing) and new_value == existing:
                             continue
                         # A nested collection's _update treats None as "no
                         # change", so a None value must replace the collection.
